@@ -1883,6 +1883,18 @@ func (c12) Gen(rng *rand.Rand, tier string, emit func(string)) {
 	//    complemented-reverse hits are not even collected (no forward hit there) and F..CR comes out as a barcode
 	emit("demux c 16 0 0 1 74616163616161616363636161616163676763 67676174746361617461676167676174747467636163 2 0 0 0 0 0 h 1 1 0 0 2 746367746763 747461616367 73305f30 65787030 - 676167676763 616174676367 73305f31 65787031 - 7265616431 747474746763636361617467676761676767636163746161636161616163636361616161636767636367616761616161746374676363676367636161676361616363676361747467637461676367637474616163676767617474636161746167616767617474746763616363616361747463616361746367746763617461677467617461676363677474747467616374747474677474616761676361636761746361617467676167676763616774616167616161746363636161616163676774636774636763616363637463747467637467746167677467616367636763636774636374677474676167636361616167636767616367677467636161617463637463746174746761617463636367636174746774637474676374676361676763 cls c3 exp 3 - x 0 - - - 74616163616161616363636161616163676763 - 0 0 - x 0 - - - - 67676174746361617461676167676174747467636163 0 0 - x 0 - - - - 67676174746361617461676167676174747467636163 0 0")
 
+	// 7. four lone sites R .. CR .. CF .. F of one marker (both direct primers hit): the CR hit lies before the first F hit and is
+	//    not collected, so R .. CF comes out as a barcode; on the reverse complement the mirrored F hit (a CF hit) lies before the
+	//    first R hit and is dropped, the mirrored CR hit is kept and separates the pair: nothing (Props/C12M.lean
+	//    positional_gating_breaks_symmetry: the part of the gating that a fix limited to "the direct primer misses" leaves)
+	{
+		c := &c12Case{format: "c", style: 0, e: -1, id: "read1", cls: "c4", markers: []c12Marker{
+			mk(P1, P2, c12Sample{"aacc", "ggtt", "s1", "e", ""}, c12Sample{"aacg", "ggtt", "s2", "e", ""})}}
+		c.seq = []byte("ttgacatg" + P2 + "acgtgtcatgcatgac" + c12Rc(P2) + "tgcatgactgatcgat" + c12Rc(P1) + "gatcgtagctagcatg" + P1 + "acgtacgt")
+		c.exps = []c12Exp{{"", "x", 0, "", "", "", "", P2, 0, 0}, {"", "x", 0, "", "", "", "", P2, 0, 0}, {"", "x", 0, "", "", "", P1, "", 0, 0}, {"", "x", 0, "", "", "", P1, "", 0, 0}}
+		emit(c.line())
+	}
+
 	// ---- sample sheets: hand-picked --------------------------------------------------------------
 	{
 		hdr := []string{"experiment", "sample", "sample_tag", "forward_primer", "reverse_primer"}
